@@ -65,6 +65,9 @@ type FuncContract struct {
 	NoPanic     bool
 	NoLocks     bool // called (and entered) with no lock of the tracked mutexes held by this goroutine
 	NoOverflow  bool
+	Writes      []Clause // with writesonly: the locations single stores may go to (default: the modifies clause)
+	HasWrites   bool
+	WritesOnly  bool // every store (not only the net effect at return) stays inside the modifies clause
 	Pure        bool // modifies nothing (shorthand)
 	Mode        string
 	Requires    []Clause
@@ -105,7 +108,7 @@ func NewContractDB() *ContractDB {
 }
 
 var topKW = map[string]bool{"spec": true, "pred": true, "def": true, "lemma": true, "axiom": true, "func": true, "assumed": true, "interface": true, "region": true, "guarded": true, "props": true, "purepkg": true, "table": true}
-var clauseKW = map[string]bool{"requires": true, "ensures": true, "modifies": true, "nopanic": true, "nooverflow": true, "inline": true, "loop": true, "use": true, "mode": true, "by": true, "prop": true, "pure": true, "ghost": true, "nolocks": true}
+var clauseKW = map[string]bool{"requires": true, "ensures": true, "modifies": true, "nopanic": true, "nooverflow": true, "inline": true, "loop": true, "use": true, "mode": true, "by": true, "prop": true, "pure": true, "ghost": true, "nolocks": true, "writes": true, "writesonly": true}
 
 type rawItem struct {
 	kw      string
@@ -371,6 +374,19 @@ func (db *ContractDB) LoadContracts(path, pkgPath string) error {
 					fc.NoPanic = true
 				case "nooverflow":
 					fc.NoOverflow = true
+				case "writesonly":
+					fc.WritesOnly = true
+				case "writes":
+					fc.HasWrites = true
+					if strings.TrimSpace(c.text) != "nothing" {
+						for _, part := range splitTop(c.text) {
+							e, err := parseSpec(part)
+							if err != nil {
+								return fmt.Errorf("%s: %v", where, err)
+							}
+							fc.Writes = append(fc.Writes, Clause{e, part})
+						}
+					}
 				case "inline":
 					fc.Inline = true
 				case "mode":
